@@ -14,6 +14,8 @@ namespace opensmt {
 bool GhostSMTSolver::isGhost(Lit l)
 {
     if (!theory_handler.isDeclared(var(l))) return false;
+    // A Boolean term nested in an uninterpreted function needs a value even if no clause mentions it
+    if (theory_handler.getLogic().appearsInUF(theory_handler.varToTerm(var(l)))) return false;
     vec<CRef> &appearances = thLitToClauses[toInt(l)];
     int i;
     for (i = 0; i < appearances.size(); i++) {
